@@ -70,12 +70,12 @@ def _strategy(shapes):
         upper = None if mode == "lower_only" else (b.reshape(n, 1) if per else float(b[0]))
         # per-component limits may mix finite and infinite bounds on the same side
         if per and n >= 2 and mode in ("two_sided", "near_mode", "far_tail") and draw(st.booleans()):
-            side = draw(st.sampled_from(["lower", "upper"]))
+            side = draw(st.sampled_from(["lower", "upper", "both"]))  # "both": some components are not truncated at all
             mask = draw(st.lists(st.booleans(), min_size=n, max_size=n))
             if any(mask) and not all(mask):
-                if side == "lower":
+                if side in ("lower", "both"):
                     lower = np.where(np.array(mask)[:, None], -np.inf, lower)
-                else:
+                if side in ("upper", "both"):
                     upper = np.where(np.array(mask)[:, None], np.inf, upper)
         zc = draw(gen.arr((R if per else 1,), 0.1, 0.9))
         cut = a + zc * (b - a)
